@@ -23,6 +23,11 @@ def cases(tier):
         cfg = {'scenario': 'batch', 'n': n, 'x': x, 'members': [{'m': 1, 'cap': 2, 'seeded': True, 'values': 'sym', 'zero_blinding_components': zc}],
                'actions': ['RecoverAndVerify', 'RecoverOnly', 'VerifyOnly']}
         out.append({'cfg': cfg, 'name': 'n%d x%d zero blinding components %s' % (n, x, zc)})
+    # the owner's statement is built over a parameter set of ANOTHER capacity than the prover's
+    for (n, x, cp, cv) in [(8, 1, 1, 4), (8, 2, 4, 1), (2, 3, 2, 8), (64, 1, 1, 2)]:
+        cfg = {'scenario': 'batch', 'n': n, 'x': x, 'members': [{'m': 1, 'cap': cp, 'seeded': True, 'values': 'sym', 'tamper_statement': {'op': 'capacity', 'cap': cv}}],
+               'actions': ['RecoverAndVerify', 'RecoverOnly', 'VerifyOnly']}
+        out.append({'cfg': cfg, 'name': 'n%d x%d proved at capacity %d, recovered at capacity %d' % (n, x, cp, cv)})
     # batch compositions: seeded / unseeded / aggregated members in every order
     kinds = [{'m': 1, 'cap': 1, 'seeded': True}, {'m': 1, 'cap': 2, 'seeded': False}, {'m': 2, 'cap': 2, 'seeded': False}, {'m': 1, 'cap': 4, 'seeded': True}]
     combos = [[0, 1], [0, 2], [0, 1, 2], [0, 3, 1]] if tier == 'quick' else [[0, 1], [0, 2], [0, 1, 2], [0, 3, 1], [0, 1, 2, 3], [3, 3, 2]]
